@@ -1535,6 +1535,11 @@ func ruleLineCountStep(c *Ctx) {
 		}
 	}
 	if cur == nil {
+		// third form: walking from line ending to line ending with bytes.IndexAny
+		if ok, why, decided := lineCountSearchWalk(p, fn, text, &l); decided {
+			c.Check(ok, "LINECOUNT-STEP", "lineCount:search-walk", fn.Pos(), why)
+			return
+		}
 		c.Undecided("LINECOUNT-STEP", "lineCount:shape", fn.Pos(), "per-byte loop over the whole text not recognised")
 		return
 	}
@@ -2080,4 +2085,184 @@ func rulePadStart(c *Ctx) {
 	if n < 2 {
 		c.Undecided("PAD-START", "instance-count", fn.Pos(), fmt.Sprintf("%d examinations of the buffer found in padNulls (a count and an expansion loop are expected)", n))
 	}
+}
+
+// lineCountSearchWalk recognises `for { i := bytes.IndexAny(text, "\r\n"); if i < 0 { return count }; count++; …;
+// text = text[i+k:] }` and decides, for every (byte found, next byte present?, next byte), that the counter goes up by
+// one and that k is 2 exactly for CR immediately followed by LF and 1 otherwise.
+func lineCountSearchWalk(p *Program, fn *ssa.Function, text ssa.Value, l *natLoop) (ok bool, why string, decided bool) {
+	// the walking text variable: a header phi fed by the parameter
+	var tphi, cphi *ssa.Phi
+	for _, in := range l.header.Instrs {
+		ph, isPhi := in.(*ssa.Phi)
+		if !isPhi {
+			break
+		}
+		for i, pr := range l.header.Preds {
+			if !l.body[pr] && ph.Edges[i] == text {
+				tphi = ph
+			}
+		}
+		if b, isB := ph.Type().Underlying().(*types.Basic); isB && b.Info()&types.IsInteger != 0 {
+			for i, pr := range l.header.Preds {
+				if !l.body[pr] {
+					if k, isC := constInt(ph.Edges[i]); isC && k == 0 {
+						cphi = ph
+					}
+				}
+			}
+		}
+	}
+	if tphi == nil || cphi == nil {
+		return false, "", false
+	}
+	var search *ssa.Call
+	for b := range l.body {
+		for _, in := range b.Instrs {
+			if call, isCall := in.(*ssa.Call); isCall {
+				if f := call.Call.StaticCallee(); f != nil && f.Pkg != nil && f.Pkg.Pkg.Path() == "bytes" && f.Name() == "IndexAny" && call.Call.Args[0] == ssa.Value(tphi) {
+					search = call
+				}
+			}
+		}
+	}
+	if search == nil {
+		return false, "", false
+	}
+	decided = true
+	set, isC := constString(search.Call.Args[1])
+	if !isC || !(set == "\r\n" || set == "\n\r") {
+		return false, fmt.Sprintf("the search set is %q, not exactly CR and LF", set), true
+	}
+	// counter: every value flowing back is counter+1
+	for i, pr := range l.header.Preds {
+		if !l.body[pr] {
+			continue
+		}
+		bo, isBo := cphi.Edges[i].(*ssa.BinOp)
+		one := int64(0)
+		if isBo {
+			one, _ = constInt(bo.Y)
+		}
+		if !isBo || bo.Op != token.ADD || bo.X != ssa.Value(cphi) || one != 1 {
+			return false, "the counter is not incremented by exactly one per line ending found", true
+		}
+	}
+	// every return yields the counter
+	for _, r := range returnsOf(fn) {
+		if len(r.Results) != 1 || r.Results[0] != ssa.Value(cphi) {
+			return false, "a return value other than the counter", true
+		}
+	}
+	// the new text on the back edge: tphi[low:]
+	var low ssa.Value
+	var latch *ssa.BasicBlock
+	for i, pr := range l.header.Preds {
+		if !l.body[pr] {
+			continue
+		}
+		sl, isSl := tphi.Edges[i].(*ssa.Slice)
+		if !isSl || sl.X != ssa.Value(tphi) || sl.Low == nil || sl.High != nil {
+			return false, "the text is not advanced by re-slicing from a position after the line ending", true
+		}
+		low, latch = sl.Low, pr
+	}
+	if low == nil {
+		return false, "no advance of the text found", true
+	}
+	bs := newBSET(p)
+	const pos = 100
+	var bad []string
+	n := 0
+	for _, bv := range []int64{'\n', '\r'} {
+		for _, atEnd := range []int64{0, 1} {
+			for _, nv := range []int64{'\n', 'x', '\r'} {
+				if atEnd == 1 && nv != 'x' {
+					continue
+				}
+				n++
+				symVal := func(v ssa.Value) (int64, bool) {
+					if v == ssa.Value(search) {
+						return pos, true
+					}
+					if cl, isLen := isBuiltinCall(v, "len"); isLen && cl.Call.Args[0] == ssa.Value(tphi) {
+						if atEnd == 1 {
+							return pos + 1, true
+						}
+						return pos + 50, true
+					}
+					if ld, isLd := v.(*ssa.UnOp); isLd && ld.Op == token.MUL {
+						if ia, isIA := ld.X.(*ssa.IndexAddr); isIA && ia.X == ssa.Value(tphi) {
+							if ia.Index == ssa.Value(search) {
+								return bv, true
+							}
+							if bo, isBo := ia.Index.(*ssa.BinOp); isBo && bo.Op == token.ADD && bo.X == ssa.Value(search) {
+								if k, isK := constInt(bo.Y); isK && k == 1 {
+									return nv, true
+								}
+							}
+						}
+					}
+					return 0, false
+				}
+				st := &evalState{e: bs, fn: fn, symVal: symVal, from: make([]int, len(fn.Blocks))}
+				for i := range st.from {
+					st.from[i] = -2
+				}
+				// walk from the search block to the latch, deciding every branch
+				b := search.Block()
+				reached := false
+				for steps := 0; steps < len(fn.Blocks)+2; steps++ {
+					if b == latch {
+						reached = true
+					}
+					var nb *ssa.BasicBlock
+					if iff := blockIf(b); iff != nil {
+						st.why = ""
+						v, okE := st.eval(iff.Cond)
+						if !okE {
+							return false, "a branch in the loop depends on something other than the byte found and its successor: " + st.why, true
+						}
+						if v != 0 {
+							nb = b.Succs[0]
+						} else {
+							nb = b.Succs[1]
+						}
+					} else if len(b.Succs) == 1 {
+						nb = b.Succs[0]
+					} else {
+						break
+					}
+					if reached && nb == l.header {
+						st.from[nb.Index] = b.Index
+						break
+					}
+					if !l.body[nb] {
+						return false, "the loop is left although a line ending was found", true
+					}
+					st.from[nb.Index] = b.Index
+					b = nb
+				}
+				if !reached {
+					return false, "no path from the search to the advance of the text", true
+				}
+				st.why = ""
+				lv, okE := st.eval(low)
+				if !okE {
+					return false, "the advance is not a function of the position found: " + st.why, true
+				}
+				want := int64(1)
+				if bv == '\r' && atEnd == 0 && nv == '\n' {
+					want = 2
+				}
+				if lv-pos != want {
+					bad = append(bad, fmt.Sprintf("byte %q, next byte %s: advances by %d, documented %d", rune(bv), map[int64]string{1: "absent", 0: fmt.Sprintf("%q", rune(nv))}[atEnd], lv-pos, want))
+				}
+			}
+		}
+	}
+	if len(bad) > 0 {
+		return false, fmt.Sprintf("%d (byte, look-ahead) cases; deviations: %s", n, strings.Join(bad, "; ")), true
+	}
+	return true, fmt.Sprintf("search-walk form: %d (byte, look-ahead) cases, one count per line ending, CRLF consumed as one", n), true
 }
